@@ -76,6 +76,35 @@ Theorem C05_join_matches_reference :
 Proof. exact run_operator_matches_reference. Qed.
 Print Assumptions C05_join_matches_reference.
 
+(* the same two statements for one-to-many (group_right) matching, where the
+   left-hand side is the "one" side *)
+Theorem C05_table_is_pairing_group_right :
+  forall (V : Type) (dflt : V) (op : V -> V -> V * bool) (b2v : bool -> V) (on : bool) (ml incl : list N)
+         (c : card) (return_bool op_drops_name : bool) (lhs_series rhs_series : list labels),
+  is_one_to_many c = true -> one_side_unique on ml lhs_series ->
+  forall steps prev, (noT <= prev)%Z -> increasing V prev steps -> Forall (good_step V lhs_series rhs_series) steps ->
+  run_operator V dflt op b2v on ml incl c return_bool op_drops_name lhs_series rhs_series steps =
+  inl (map (fun s => (fst (fst s),
+                      relabel V on ml incl c return_bool op_drops_name lhs_series rhs_series
+                        (pure_step V op b2v c return_bool (op_hidx on ml c lhs_series rhs_series)
+                                   (op_lidx on ml c lhs_series rhs_series) (snd (fst s)) (snd s)))) steps).
+Proof. exact run_operator_is_pairing_otm. Qed.
+Print Assumptions C05_table_is_pairing_group_right.
+
+Theorem C05_join_matches_reference_group_right :
+  forall (V : Type) (op : V -> V -> V * bool) (b2v : bool -> V) (on : bool) (ml incl : list N)
+         (c : card) (return_bool op_drops_name : bool) (lhs_series rhs_series : list labels),
+  is_one_to_many c = true -> one_side_unique on ml lhs_series ->
+  forall (s : Z * list (nat * V) * list (nat * V)) out, good_step V lhs_series rhs_series s ->
+  ref_operator_step V op b2v on ml incl c return_bool op_drops_name lhs_series rhs_series (snd (fst s)) (snd s) = Some out ->
+  forall m v,
+    In (m, v) (relabel V on ml incl c return_bool op_drops_name lhs_series rhs_series
+                 (pure_step V op b2v c return_bool (op_hidx on ml c lhs_series rhs_series)
+                            (op_lidx on ml c lhs_series rhs_series) (snd (fst s)) (snd s))) <->
+    In (m, v) out.
+Proof. exact run_operator_matches_reference_otm. Qed.
+Print Assumptions C05_join_matches_reference_group_right.
+
 (* the label sets of the output series are the reference's resultMetric *)
 Theorem C05_output_labels :
   forall on ml incl c return_bool op_drops_name lm rm,
@@ -106,9 +135,9 @@ Proof.
 Qed.
 Print Assumptions C05_series_level_join_refuted.
 
-(* PARTIAL. One-to-many (group_right) matching is covered by the model and the
-   correspondence check but not by the two theorems above (the proof is the
-   mirror image); values of the arithmetic operators are IEEE doubles in the
+(* PARTIAL. Values of the arithmetic operators are IEEE doubles in the
    correspondence check and abstract in the theorems; the reference's behaviour
    on inputs where it fails (duplicate signatures at a step) is not related to
-   the engine's errors by a theorem: the engine deviates there (F20). *)
+   the engine's errors by a theorem: the engine deviates there (F20). The
+   theorems compare the samples as sets; multiplicities are compared by the
+   correspondence check and the reference oracle. *)
